@@ -16,6 +16,7 @@ RULE = ("systematic batches: every ordered tree shape with <= 5 nodes (3 value p
         "interleaved. quick: histories up to 25 lines, thorough: up to 40 lines. An evaluation is one operation line; it is non-trivial "
         "if it is not skipped (skip:*), distinct = distinct (line, model result) pairs.")
 ASSUMPTIONS = [
+    "the behaviour of the non-copying members does not depend on the value type: the second instantiation (a move-only value type whose moved-from state keeps its number) is compared with the same model",
     "std::list<object> holds its elements by value with stable addresses: moving/swapping/sorting a list keeps element identity, copying constructs new elements",
     "std::list::sort is a stable sort (modelled by List.mergeSort)",
     "an object's address is a fresh natural number; T = int, a moved-from int keeps its value",
@@ -145,6 +146,15 @@ def batches(rng, tier):
             ops += history(r, maxlen, style)
         yield Batch(f"histories-{style}", ops, kind="history",
                     note=f"{cnt} histories of up to {maxlen} lines, style {style}")
+    # the same operation language on the instantiation with a move-only value type (copying operations answer skip:copy)
+    r = rng.fork("hist-moveonly")
+    cnt = 15000 if thorough else 1500
+    ops = []
+    for k in range(cnt):
+        ops.append("reset")
+        ops += ["M " + l for l in history(r, maxlen, "assign" if k % 3 == 0 else "mixed")]
+    yield Batch("histories-moveonly", ops, kind="history",
+                note=f"{cnt} histories of up to {maxlen} lines on object<move-only value type>")
 
 
 def shapes(n):
@@ -262,6 +272,7 @@ def shape_observer_batches(tier):
                      "every node; child_position and == / != on every ordered pair of nodes")
 
 
+COPY_CMDS = ("cpc", "cpa", "mkl", "pushbv", "pushfv", "insv", "setv")
 OTHER = [[[]], []]          # the second tree of the pair batches: 10(11(12) 13)
 OTHER_VALS = [10, 11, 12, 13]
 
@@ -310,6 +321,27 @@ def shape_op_batches(tier):
                         continue          # independent of the shape: done once, with the one-node shape
                     for case in binary_cases(pa, len(sa), pb):
                         ops += ["reset"] + setup + [case, "obsall"]
+    # the move-only instantiation: the same cases (the copying ones are skipped there) for the shapes with one node less
+    mo = []
+    for n in range(1, maxn):
+        for t in shapes(n):
+            vals = value_patterns(n)[2]
+            setup = ["M " + l for l in build_lines(0, t, vals) + build_lines(1, OTHER, OTHER_VALS)]
+            na = node_paths("p0", t)
+            nb = node_paths("p1", OTHER)
+            for pth, sub in na:
+                for case in unary_cases(pth, sub):
+                    if case.split()[0] not in COPY_CMDS:
+                        mo += ["reset"] + setup + ["M " + case, "M obsall"]
+            for pa, sa in na + nb:
+                for pb, sb in na + nb:
+                    if n > 1 and pa.startswith("p1") and pb.startswith("p1"):
+                        continue
+                    for case in binary_cases(pa, len(sa), pb):
+                        if case.split()[0] not in COPY_CMDS:
+                            mo += ["reset"] + setup + ["M " + case, "M obsall"]
+    yield Batch("shape-ops-moveonly", mo, kind="history", exhaustive=True,
+                note=f"the non-copying cases of shape-ops for all shapes with <= {maxn - 1} nodes on object<move-only value type>")
     yield Batch("shape-ops", ops, kind="history", exhaustive=True,
                 note=f"all shapes with <= {maxn} nodes: every unary mutator on every node and child position; swap / copy-assign / "
                      "move-assign / push(tree) / insert(tree) / value-by-reference forms on every ordered pair of nodes (incl. same node, "
